@@ -161,6 +161,12 @@ pub const FAULTS: [TrackerOutcome; 4] = [TrackerOutcome::Refused, TrackerOutcome
 
 /// One fault word (indices into FAULTS) followed by a good announce.
 pub fn fault_case(dir: &std::path::PathBuf, word: &[usize], leave_after: Option<usize>, final_order: &[usize], verbose: bool) -> (u64, Option<(&'static str, String)>) {
+    fault_case_ext(dir, word, leave_after, final_order, false, verbose)
+}
+
+/// `complete`: just before the other connection ends (see `leave_after`), P delivers every piece, so
+/// that connection's end starts the extractor, which finishes while the tracker is still failing.
+pub fn fault_case_ext(dir: &std::path::PathBuf, word: &[usize], leave_after: Option<usize>, final_order: &[usize], complete: bool, verbose: bool) -> (u64, Option<(&'static str, String)>) {
     let t = Torrent::new("t", 5, &[("f", 15)], true);
     // P (0) stays, Q (1) leaves first and triggers the re-announce, R (2) is only listed at the end,
     // S (3) is connected from the start and may leave in the middle of the fault sequence
@@ -194,9 +200,47 @@ pub fn fault_case(dir: &std::path::PathBuf, word: &[usize], leave_after: Option<
         return (steps, Some(("MACHINERY", format!("no re-announce after the peer left: {}", desc(&w)))));
     }
     let mut p_chokes = false; // P unchoked us in the prefix
+    let mut probe = 0usize; // the connection whose messages show that the manager still serves
     for k in 0..word.len() {
         // the k-th announce failed; the session must keep serving P meanwhile
-        if leave_after == Some(k) {
+        if leave_after == Some(k) && complete {
+            // S declares interest (so that it stays connected to a seeding client), P unchokes if it
+            // was choking and answers every request until the client owns all three pieces; the
+            // client then drops P (nothing more to fetch), and that connection's end starts the
+            // extractor, which finishes while the tracker task is still retrying
+            w.step(&FEv::Feed(3, refwire::encode(&Msg::Interested)));
+            steps += 1;
+            if p_chokes {
+                w.step(&FEv::Feed(0, refwire::encode(&Msg::Unchoke)));
+                steps += 1;
+                p_chokes = false;
+            }
+            let mut answered = 0;
+            for _ in 0..8 {
+                let reqs: Vec<(u32, u32, u32)> = w.peers[0].conn.as_ref().map(|c| c.msgs.iter().filter_map(|m| if let Msg::Request(i, b, l) = m { Some((*i, *b, *l)) } else { None }).collect()).unwrap_or_default();
+                if reqs.is_empty() {
+                    break;
+                }
+                let (i, b, l) = *reqs.last().unwrap();
+                let owned_i = w.snap().map(|s| s.statuses[i as usize] == rdest::verif::Status::Have).unwrap_or(false);
+                if owned_i {
+                    break;
+                }
+                answered += 1;
+                let data = t.pieces[i as usize][b as usize..(b + l) as usize].to_vec();
+                w.step(&FEv::Feed(0, refwire::encode(&Msg::Piece(i, b, data))));
+                steps += 1;
+            }
+            let owned = w.snap().map(|s| s.statuses.iter().filter(|x| **x == rdest::verif::Status::Have).count()).unwrap_or(0);
+            if owned != 3 {
+                return (steps, Some(("MACHINERY", format!("P answered {} requests but the client owns {} of 3 pieces: {}", answered, owned, desc(&w)))));
+            }
+            probe = 3;
+            p_chokes = false;
+            if verbose {
+                println!("download completed after {} failure(s): {}", k, desc(&w));
+            }
+        } else if leave_after == Some(k) {
             // another connection ends in the middle of the fault sequence
             w.step(&FEv::Close(3));
             steps += 1;
@@ -205,11 +249,11 @@ pub fn fault_case(dir: &std::path::PathBuf, word: &[usize], leave_after: Option<
             }
         }
         p_chokes = !p_chokes;
-        w.step(&FEv::Feed(0, refwire::encode(&if p_chokes { Msg::Choke } else { Msg::Unchoke })));
+        w.step(&FEv::Feed(probe, refwire::encode(&if p_chokes { Msg::Choke } else { Msg::Unchoke })));
         steps += 1;
-        let seen = w.snap().and_then(|s| s.peers.iter().find(|p| p.addr == w.peers[0].cfg.addr).map(|p| p.choked));
+        let seen = w.snap().and_then(|s| s.peers.iter().find(|p| p.addr == w.peers[probe].cfg.addr).map(|p| p.choked));
         if verbose {
-            println!("failure {} ({:?}); P sent {}; manager sees choked={:?}; {}", k + 1, FAULTS[word[k]], if p_chokes { "Choke" } else { "Unchoke" }, seen, desc(&w));
+            println!("failure {} ({:?}); peer {} sent {}; manager sees choked={:?}; {}", k + 1, FAULTS[word[k]], probe, if p_chokes { "Choke" } else { "Unchoke" }, seen, desc(&w));
         }
         if !w.panics.is_empty() {
             return (steps, Some(("panic-during-tracker-faults", format!("{:?}", w.panics))));
@@ -377,6 +421,25 @@ fn fault_part(ctx: &Ctx) -> (u64, u64, Vec<Value>) {
             cases.push((w.clone(), Some(w.len() - 66), orders[0].clone()));
         }
     }
+    // the same with the download completing during the outage (words of length 2..=4 over the four
+    // fault kinds and the long homogeneous ones): the extractor starts and finishes while the
+    // tracker task is still retrying
+    let mut ccases: Vec<(Vec<usize>, usize)> = vec![];
+    for w in &words {
+        if w.len() >= 2 && (w.len() <= 3 || w.len() > 66) {
+            for k in 0..(w.len() - 1).min(2) {
+                ccases.push((w.clone(), k));
+            }
+        }
+    }
+    let cres = core::par_map(
+        &ccases,
+        |w| {
+            core::set_quiet_panics(true);
+            core::private_cwd("c19", &format!("c{}", w))
+        },
+        |dir, _, (word, k)| fault_case_ext(dir, word, Some(*k), &[0, 1, 2], true, false),
+    );
     let res = core::par_map(
         &cases,
         |w| {
@@ -395,6 +458,16 @@ fn fault_part(ctx: &Ctx) -> (u64, u64, Vec<Value>) {
                 ctx.machinery_error(why.clone());
             } else {
                 ctx.violation(class, format!("{}{}", why, match leave { Some(k) => format!(" [a second connection ended after failure {}]", k), None => String::new() }), json!({"kind": "faults", "word": word, "leave_after": leave, "final_order": order}));
+            }
+        }
+    }
+    for ((word, k), (n, v)) in ccases.iter().zip(cres.iter()) {
+        steps += n;
+        if let Some((class, why)) = v {
+            if *class == "MACHINERY" {
+                ctx.machinery_error(why.clone());
+            } else {
+                ctx.violation(class, format!("{} [the download completed and another connection ended after failure {}: the extractor ran during the outage]", why, k), json!({"kind": "faults", "word": word, "leave_after": k, "final_order": [0, 1, 2], "complete": true}));
             }
         }
     }
@@ -423,7 +496,7 @@ fn fault_part(ctx: &Ctx) -> (u64, u64, Vec<Value>) {
         }
     }
     let samples = vec![json!({"tracker_outcomes": ["Good[P,Q]", "Refused", "Http500", "Good[P,Q,R]"], "peer_events": "P: handshake+bitfield+unchoke; Q: handshake, close; after each failure P toggles choke"})];
-    ((cases.len() + bcases.len()) as u64, steps, samples)
+    ((cases.len() + bcases.len() + ccases.len()) as u64, steps, samples)
 }
 
 /// Deep nesting goes through the recursive decoder: probe in subprocesses (a stack overflow aborts).
@@ -479,7 +552,7 @@ pub fn run(ctx: &Ctx) -> Outcome {
     o.set("fault_sequences", json!(fault_runs));
     o.set("evaluations", json!(sigma + docs.len() as u64));
     o.set("distinct_nontrivial", json!(accepted));
-    o.set("rule", json!(format!("(a) every string over the C16 alphabet of length 0..={} through TrackerResp::from_bencode (totality); structured replies = peers list of 0..3 entries drawn from 11 entry shapes (2 good, 9 malformed) or missing/ill-typed x 5 interval shapes x 5 failure-reason shapes (absent, text, empty, non-UTF-8, ill-typed), all distinct; non-trivial = structured replies read as success. (b) full-session world (real event_loop, tracker task, retry loop, handle_tracker_cmd, spawn_peer_handler over the seams): tracker outcome words F^n.S for every F-word of length <= 3 (thorough 4) over the four fault kinds (refused, HTTP 500, garbage body, failure reason) and the four homogeneous words for every longer n up to 70 (thorough 100), with a live connection P, each word alone and with another connection ending after 0..2 failures (a KillReq in the middle of the fault sequence); after every failure P toggles choke/unchoke and the manager must have processed it in that quiescent step; after S the listed peers must be contacted; budget cases: the good reply (after 0..3 faults) arrives while 7..=13 connected peers are interesting (15 connections from two earlier announces): no panic or hang, still serving, min(3, max(0, 11 - j)) of the 3 listed peers dialled at once and the others exactly once as three connections end; states = fault words, transitions = events executed", max_len)));
+    o.set("rule", json!(format!("(a) every string over the C16 alphabet of length 0..={} through TrackerResp::from_bencode (totality); structured replies = peers list of 0..3 entries drawn from 11 entry shapes (2 good, 9 malformed) or missing/ill-typed x 5 interval shapes x 5 failure-reason shapes (absent, text, empty, non-UTF-8, ill-typed), all distinct; non-trivial = structured replies read as success. (b) full-session world (real event_loop, tracker task, retry loop, handle_tracker_cmd, spawn_peer_handler over the seams): tracker outcome words F^n.S for every F-word of length <= 3 (thorough 4) over the four fault kinds (refused, HTTP 500, garbage body, failure reason) and the four homogeneous words for every longer n up to 70 (thorough 100), with a live connection P, each word alone and with another connection ending after 0..2 failures (a KillReq in the middle of the fault sequence); after every failure P toggles choke/unchoke and the manager must have processed it in that quiescent step; after S the listed peers must be contacted; completion cases: for words of length 2..3 (and the long ones) P delivers every piece after 0..1 failures and another connection ends, so the extractor runs and finishes during the outage, same obligations; budget cases: the good reply (after 0..3 faults) arrives while 7..=13 connected peers are interesting (15 connections from two earlier announces): no panic or hang, still serving, min(3, max(0, 11 - j)) of the 3 listed peers dialled at once and the others exactly once as three connections end; states = fault words, transitions = events executed", max_len)));
     o.set("sigma_strings", json!(sigma));
     o.set("structured_replies", json!(docs.len()));
     let picks = ctx.seeded_pick(docs.len(), 4);
@@ -518,7 +591,8 @@ pub fn replay(_ctx: &Ctx, r: &Value) -> i32 {
         println!("tracker outcomes: Good[P,Q], {:?}, Good[P,Q,R]", word.iter().map(|f| format!("{:?}", FAULTS[*f])).collect::<Vec<_>>());
         let leave = r["leave_after"].as_u64().map(|x| x as usize);
         let order: Vec<usize> = r["final_order"].as_array().map(|a| a.iter().map(|x| x.as_u64().unwrap() as usize).collect()).unwrap_or_else(|| vec![0, 1, 2]);
-        return match fault_case(&dir, &word, leave, &order, true).1 {
+        let complete = r["complete"].as_bool().unwrap_or(false);
+        return match fault_case_ext(&dir, &word, leave, &order, complete, true).1 {
             Some((class, why)) => {
                 println!("VIOLATION property=C19 replay=<this file>\n  class={} {}", class, why);
                 1
